@@ -133,6 +133,11 @@ def main():
         d[mk(b, 7)] = get(d, mk(b, 7), 0) + 1
         return get(d, mk(c, 7), 0), len(d)
     case("dict_symbolic_stored_keys", symkeys, [B, B, B], [(1, 1, 1), (1, 2, 1), (1, 2, 2), (1, 2, 3), (5, 5, 6)])
+    t1 = [5, 9, 2, 7, 0, 3]
+    t2 = [4, 40, 2, 5, 44, 0, 6, 3, 8, 1]
+    case("table_composition", lambda i: instr.getitem(t2, instr.getitem(t1, i)), [(0, 5)], [(i,) for i in range(6)])
+    inv = [t1.index(v) if v in t1 else 99 for v in range(10)]
+    case("table_inverse_composition", lambda i: instr.getitem(inv, instr.getitem(t1, i)) * 3 + 1, [(0, 5)], [(i,) for i in range(6)])
     # BytesIO
     def bio(a, b, n):
         s = instr.call(io.BytesIO, mk(a, b, 3, 4))
